@@ -2,13 +2,17 @@ import GqlProofs.Grammar.Sound
 import GqlProofs.Grammar.Reject
 import GqlProofs.Grammar.ParserFacts
 import GqlProofs.Grammar.PrintSchema
+import GqlProofs.Parser.SoundSchemaTop
 /-
   C06 — the schema parser accepts exactly the type-system grammar, faithfully.
 
   Specification-side theorems about the grammar tables `gql` (start symbol
   `NT.typeSystemDocument`), the generic recogniser (driver ops `gs` / `gsc`) and the unparser
-  `Print.printSchema` (op `unparses`); plus two theorems about the PARSER MODEL
-  (`parseSchemaSrc`, `parseSchemas`: ops `ps` / `pss`): the built-in flag and the merge.
+  `Print.printSchema` (op `unparses`); plus theorems about the PARSER MODEL
+  (`parseSchemaSrc`, `parseSchemas`: ops `ps` / `pss`): the built-in flag, the merge, and
+  soundness — every accepted non-empty document without literal-named enum values is derivable
+  and its tree unparses to a canonical form of the input (`C06_parse_sound`, `C06_parse_sound_<nt>`;
+  as for C05 the canonical form is that of a derivation, see the FULL STATEMENT note in C05.lean).
   The tie to the real parser is the check `C06` (harness/internal/props/grammarcheck.go).
 -/
 open Gql Gql.Lexer Gql.Grammar Gql.Parser Gql.Print
@@ -180,6 +184,156 @@ theorem C06_merge_is_concat (limit : Nat) (srcs : List (Bool × Bytes)) (d : Sch
   exact ⟨ds, hp, by simpa [SchemaDoc.empty] using h1, by simpa [SchemaDoc.empty] using h2,
     by simpa [SchemaDoc.empty] using h3, by simpa [SchemaDoc.empty] using h4, by simpa [SchemaDoc.empty] using h5⟩
 
+/-! ### the parser is sound: accepted ⇒ derivable, and the tree is faithful
+
+  Theorems about the schema parser model itself (`GqlModel/Parser/Schema.lean`, driver op `ps`).
+  For the vocabulary (`Spec`, `Eats`, `tk`, `abs`) see the corresponding section of `Props/C05.lean`.
+  Two spellings are not recorded in the tree, so here "faithful" is: the unparse of the tree is
+  the canonical output of a derivation of the consumed tokens (descriptions become String tokens,
+  empty descriptions and the optional leading `&` / `|` disappear). -/
+
+/-- `Description?`: absent, or a String / BlockString token whose value is the description -/
+theorem C06_parse_sound_description :
+    Spec parseDescription (fun d a a' => ∃ u, Ate a a' u ∧
+      Derives gql (.opt (.nt .description)) (tk u) (printDesc d) ∧
+      (a.σ.head.kind ≠ .string → a.σ.head.kind ≠ .blockString → u = [] ∧ d = [])) := spec_parseDescription
+
+/-- `ImplementsInterfaces?` (`OptD n ts out e`: absent exactly when `e`, else a derivation of `n`) -/
+theorem C06_parse_sound_implements_interfaces (n : Nat) :
+    Spec (parseImplementsInterfaces n) (fun ifs a a' => ∃ u, Ate a a' u ∧
+      OptD .implementsInterfaces (tk u) (printImplements ifs) (ifs = [])) := spec_parseImplementsInterfaces n
+
+theorem C06_parse_sound_union_member_types (n : Nat) :
+    Spec (parseUnionMemberTypes n) (fun ts a a' => ∃ u, Ate a a' u ∧
+      OptD .unionMemberTypes (tk u) (printMembers ts) (ts = [])) := spec_parseUnionMemberTypes n
+
+theorem C06_parse_sound_directive_locations (n : Nat) :
+    Spec (parseDirectiveLocations n) (Eats fun ls u =>
+      ls ≠ [] ∧ (∀ l ∈ ls, l ∈ Gql.Grammar.directiveLocationNames) ∧
+      Derives gql (.nt .directiveLocations) (tk u) (printSep .pipe ls)) := spec_parseDirectiveLocations n
+
+theorem C06_parse_sound_arguments_definition (n : Nat) :
+    Spec (parseArgumentDefs n) (Eats fun as u =>
+      OptD .argumentsDefinition (tk u) (printArgDefs as) (as = []) ∧ ∀ a ∈ as, WFArgDef a) := spec_parseArgumentDefs n
+
+theorem C06_parse_sound_fields_definition (n : Nat) :
+    Spec (parseFieldsDefinition n) (Eats fun fs u =>
+      OptD .fieldsDefinition (tk u) (printBlock printFieldDef fs) (fs = []) ∧ ∀ f ∈ fs, WFFieldDef f) :=
+  spec_parseFieldsDefinition n
+
+theorem C06_parse_sound_input_fields_definition (n : Nat) :
+    Spec (parseInputFieldsDefinition n) (Eats fun fs u =>
+      OptD .inputFieldsDefinition (tk u) (printBlock printInputField fs) (fs = []) ∧ ∀ f ∈ fs, WFInputField f) :=
+  spec_parseInputFieldsDefinition n
+
+/-- `EnumValuesDefinition?`: derivable provided no value is named `true` / `false` / `null` (the
+    parser does not check this, see `C06_parse_enum_literal_counterexample`) -/
+theorem C06_parse_sound_enum_values_definition (n : Nat) :
+    Spec (parseEnumValuesDefinition n) (Eats fun es u =>
+      ((∀ e ∈ es, notLiteralName e.name) → OptD .enumValuesDefinition (tk u) (printBlock printEnumVal es) (es = [])) ∧
+      (es = [] → u = []) ∧ ∀ e ∈ es, ConstDirectives e.dirs) := spec_parseEnumValuesDefinition n
+
+/-- `TypeDefinition` after its description: from the tokens `tsD` of the description and the
+    tokens consumed by `parseTypeSystemDefinition` one gets a derivation of `TypeDefinition` -/
+theorem C06_parse_sound_type_definition (n : Nat) (desc : Bytes) :
+    Spec (parseTypeSystemDefinition n desc) (Eats fun d u => d.desc = desc ∧ (EnumOK d → WFDefBody d ∧
+      ∀ tsD, Derives gql (.opt (.nt .description)) tsD (printDesc desc) →
+        Derives gql (.nt .typeDefinition) (tsD ++ tk u) (printDefinition d))) :=
+  (spec_parseTypeSystemDefinition n desc).mono fun _ _ _ _ e => e.mono fun d u ⟨hb, hd⟩ =>
+    ⟨hd, fun hen => ⟨wf_of_body hb hen, fun tsD hD => derives_definition hb (hd ▸ hD) hen⟩⟩
+
+/-- everything after `extend`… wait for the keyword: `extend` itself is consumed here too -/
+theorem C06_parse_sound_extension (n : Nat) (doc : SchemaDoc) :
+    Spec (parseTypeSystemExtension n doc) (Eats fun doc' u => ∃ it, PSItem it u ∧ doc' = doc.add it) :=
+  spec_parseTypeSystemExtension n doc
+
+theorem C06_parse_sound_schema_definition (n : Nat) (desc : Bytes) :
+    Spec (parseSchemaDefinition n desc) (Eats fun sd u => sd.desc = desc ∧ WFSchemaDef sd ∧
+      ∀ tsD, Derives gql (.opt (.nt .description)) tsD (printDesc desc) →
+        Derives gql (.nt .schemaDefinition) (tsD ++ tk u) (printSchemaDef sd)) :=
+  (spec_parseSchemaDefinition n desc).mono fun _ _ _ _ e => e.mono fun sd u ⟨hd, htk, hwf, _⟩ =>
+    ⟨hd, hwf, fun tsD hD => by rw [htk]; exact derives_schemaDef sd hwf (hd ▸ hD)⟩
+
+theorem C06_parse_sound_directive_definition (n : Nat) (desc : Bytes) :
+    Spec (parseDirectiveDefinition n desc) (Eats fun dd u => dd.desc = desc ∧ WFDirectiveDef dd ∧
+      ∀ tsD, Derives gql (.opt (.nt .description)) tsD (printDesc desc) →
+        Derives gql (.nt .directiveDefinition) (tsD ++ tk u) (printDirectiveDef dd)) :=
+  (spec_parseDirectiveDefinition n desc).mono fun _ _ _ _ e => e.mono fun dd u ⟨hd, hwf, _, hder⟩ =>
+    ⟨hd, hwf, fun _ hD => hder hD⟩
+
+/-- **Soundness of `ParseSchema`.**  If the parser accepts `inp` with a non-empty document `doc`
+    none of whose enums has a value named `true`, `false` or `null` (`EnumOK`), then the lexer
+    model succeeds on `inp`, the comment-free token sequence `ts` of `inp` is derivable from the
+    type-system document grammar, the unparse of `doc` is a canonical form of `ts` (the output of
+    a derivation of `ts`, definitions in source order), and `doc` is well-formed. -/
+theorem C06_parse_sound (inp : Bytes) (doc : SchemaDoc) (h : parseSchema 0 inp = .ok doc)
+    (hne : doc.schema ≠ [] ∨ doc.schemaExt ≠ [] ∨ doc.directives ≠ [] ∨ doc.definitions ≠ [] ∨ doc.extensions ≠ [])
+    (henum : (∀ d ∈ doc.definitions, EnumOK d) ∧ (∀ d ∈ doc.extensions, EnumOK d)) :
+    ∃ ts, tokensOf inp = some ts ∧ Derivable gql .typeSystemDocument ts ∧
+      Derives gql (.nt .typeSystemDocument) ts (printSchema doc) ∧ WFSchema doc := by
+  obtain ⟨d0, h0, rfl⟩ := parseSchemaSrc_ok.1 h
+  obtain ⟨raw, eof, h1, h2, h3, _, h5, _⟩ := runSchema_sound 0 inp d0 h0
+  have hne0 : SchemaDoc.nonEmpty d0 := by
+    rw [nonEmpty_iff_docItems, ← docItems_setBuiltIn false]
+    exact (nonEmpty_iff_docItems _).1 hne
+  have hen0 : DocAll SItem.enumOK d0 :=
+    DocAll_setBuiltIn_enum false d0 ⟨fun _ _ => trivial, fun _ _ => trivial, fun _ _ => trivial, henum.1, henum.2⟩
+  obtain ⟨d, wf⟩ := h5 hne0 hen0
+  rw [← printSchema_setBuiltIn false] at d
+  exact ⟨_, tokensOf_of_done h1 h2 h3, ⟨_, d⟩, d, (WFSchema_iff _).2 ⟨hne, DocAll_setBuiltIn_WF false d0 ((WFSchema_iff d0).1 wf).2⟩⟩
+
+/-- … under any token limit -/
+theorem C06_parse_sound_limit (L : Nat) (inp : Bytes) (doc : SchemaDoc) (h : parseSchema L inp = .ok doc)
+    (hne : doc.schema ≠ [] ∨ doc.schemaExt ≠ [] ∨ doc.directives ≠ [] ∨ doc.definitions ≠ [] ∨ doc.extensions ≠ [])
+    (henum : (∀ d ∈ doc.definitions, EnumOK d) ∧ (∀ d ∈ doc.extensions, EnumOK d)) :
+    ∃ ts, tokensOf inp = some ts ∧ Derivable gql .typeSystemDocument ts ∧
+      Derives gql (.nt .typeSystemDocument) ts (printSchema doc) ∧ WFSchema doc :=
+  C06_parse_sound inp doc (parseSchemaSrc_mono (stricter_zero L) 0 false inp doc h) hne henum
+
+/-- an accepted document with an empty tree has no significant token -/
+theorem C06_parse_empty_tree (inp : Bytes) (doc : SchemaDoc) (h : parseSchema 0 inp = .ok doc)
+    (he : doc.schema = [] ∧ doc.schemaExt = [] ∧ doc.directives = [] ∧ doc.definitions = [] ∧ doc.extensions = []) :
+    tokensOf inp = some [] := by
+  obtain ⟨d0, h0, rfl⟩ := parseSchemaSrc_ok.1 h
+  obtain ⟨raw, eof, h1, h2, h3, _, _, h6⟩ := runSchema_sound 0 inp d0 h0
+  have : ¬ SchemaDoc.nonEmpty d0 := by
+    rw [nonEmpty_iff_docItems, ← docItems_setBuiltIn false, ← nonEmpty_iff_docItems]
+    intro hn
+    rcases hn with h | h | h | h | h
+    · exact h he.1
+    · exact h he.2.1
+    · exact h he.2.2.1
+    · exact h he.2.2.2.1
+    · exact h he.2.2.2.2
+  rw [tokensOf_of_done h1 h2 h3, h6 this]; rfl
+
+/-- FINDING: the schema parser accepts the empty document, which the grammar does not derive -/
+theorem C06_parse_empty_counterexample :
+    parseSchema 0 [] = .ok SchemaDoc.empty ∧ tokensOf [] = some [] ∧ ¬ Derivable gql .typeSystemDocument [] :=
+  ⟨rfl, by decide, C06_reject_classes_empty_document⟩
+
+/-- FINDING: the schema parser accepts `enum E{true}` (`parseEnumValueDefinition` takes any Name),
+    but `EnumValue : Name but not true, false, null`: no derivation of `EnumValue` has the token
+    `true`, and the recogniser rejects the whole token sequence.  (Same for `false` and `null`,
+    in definitions and in `extend enum`.) -/
+theorem C06_parse_enum_literal_counterexample :
+    (parseSchema 0 [101,110,117,109,32,69,123,116,114,117,101,125]).isOk = true ∧
+    tokensOf [101,110,117,109,32,69,123,116,114,117,101,125] =
+      some [tName (str "enum"), tName (str "E"), tP .braceL, tName (str "true"), tP .braceR] ∧
+    isTypeSystem [tName (str "enum"), tName (str "E"), tP .braceL, tName (str "true"), tP .braceR] = false ∧
+    ∀ out, ¬ Derives gql (.nt .enumValue) [tName (str "true")] out := by
+  refine ⟨by decide, by decide, by decide, fun out h => ?_⟩
+  obtain ⟨v, hv, h1, _⟩ := C06_reject_classes_enum_value _ _ h
+  simp only [tName, List.cons.injEq, Tok.mk.injEq, true_and, and_true] at hv
+  exact h1 hv.symm
+
+/-- non-vacuity of `C06_parse_sound`: `type A implements&B{a:C}` is accepted; the unparse drops the
+    leading `&` -/
+example : (parseSchema 0 [116,121,112,101,32,65,32,105,109,112,108,101,109,101,110,116,115,38,66,123,97,58,67,125]).isOk = true ∧
+    (runSchema 0 0 [116,121,112,101,32,65,32,105,109,112,108,101,109,101,110,116,115,38,66,123,97,58,67,125]).1.definitions.map printDefinition
+      = [[tKw "type", tName [65], tKw "implements", tName [66], tP .braceL, tName [97], tP .colon, tName [67], tP .braceR]] :=
+  ⟨by decide, by decide⟩
+
 #print axioms C06_print_in_grammar
 #print axioms C06_print_canonical
 #print axioms C06_recognise_sound
@@ -192,3 +346,20 @@ theorem C06_merge_is_concat (limit : Nat) (srcs : List (Bool × Bytes)) (d : Sch
 #print axioms C06_reject_classes_operation_type
 #print axioms C06_builtin_flag
 #print axioms C06_merge_is_concat
+#print axioms C06_parse_sound
+#print axioms C06_parse_sound_limit
+#print axioms C06_parse_sound_description
+#print axioms C06_parse_sound_implements_interfaces
+#print axioms C06_parse_sound_union_member_types
+#print axioms C06_parse_sound_directive_locations
+#print axioms C06_parse_sound_arguments_definition
+#print axioms C06_parse_sound_fields_definition
+#print axioms C06_parse_sound_input_fields_definition
+#print axioms C06_parse_sound_enum_values_definition
+#print axioms C06_parse_sound_type_definition
+#print axioms C06_parse_sound_extension
+#print axioms C06_parse_sound_schema_definition
+#print axioms C06_parse_sound_directive_definition
+#print axioms C06_parse_empty_tree
+#print axioms C06_parse_empty_counterexample
+#print axioms C06_parse_enum_literal_counterexample
